@@ -494,7 +494,11 @@ class World:
                 raise Violation("C10", "manifest-skeleton", "skeleton in the manifest of the stub-made patch differs from the record's paths / node kinds / attribute names")
         elif mf.skeleton != skel:
             raise Violation("C10", "manifest-skeleton", "manifest skeleton differs from IH5Skeleton.for_record(record)")
-        if r.obj.manifest.manifest_uuid != mf.manifest_uuid:
+        try:
+            loaded = r.obj.manifest.manifest_uuid
+        except Exception as e:
+            raise Violation("C10", "manifest-loaded", f"record.manifest raised {type(e).__name__}: {e} although the newest container is committed")
+        if loaded != mf.manifest_uuid:
             raise Violation("C10", "manifest-loaded", "record.manifest is not the manifest on disk")
         if r.exts is not None and mf.manifest_exts != r.exts:
             raise Violation("C10", "manifest-exts", f"manifest_exts after commit = {mf.manifest_exts}, expected {r.exts} to persist", shape="exts-lost")
@@ -1256,6 +1260,10 @@ class IH5StoreEngine:
                 if profile == "merge" and c < 0.55:
                     if s["writable"] and g.random() < 0.8:
                         do_commit(i)
+                    if g.random() < 0.2:
+                        g.choice([do_commit, do_create_patch, do_discard])(i)  # often a refused call
+                        if st[i]["writable"]:
+                            do_commit(i)
                     if merge_targets:
                         t = merge_targets.pop(0) if g.random() < 0.85 else 4
                         cfg["classes"][str(t)] = cfg["classes"][str(i)]
